@@ -11,6 +11,7 @@ import (
 	"context"
 	"errors"
 	"reflect"
+	"runtime"
 	"sync"
 	"sync/atomic"
 	"testing"
@@ -249,4 +250,48 @@ func (x *vfParked) Close() error {
 	<-x.release
 	x.closed.Store(true)
 	return nil
+}
+
+// F1' (C12), residual after d23542b: the child's watcher can finish the child's disposal - including
+// `delete(parent.children, child)` (scope.go:311-315) - before the parent, which has just called
+// cancel(), takes its children snapshot (scope.go:284-290). The parent then never sees the child and
+// its Close returns nil although a disposable in its subtree failed. No user code in the window:
+// statistical.
+func TestVerifFindingChildDisposalErrorDroppedResidual(t *testing.T) {
+	lost, iters := 0, 0
+	deadline := time.Now().Add(20 * time.Second)
+	var spin atomic.Bool
+	for g := 0; g < 2*runtime.GOMAXPROCS(0); g++ { // oversubscribe, so that goroutines get descheduled
+		go func() {
+			for !spin.Load() {
+				runtime.Gosched()
+			}
+		}()
+	}
+	defer spin.Store(true)
+	for ; lost == 0 && time.Now().Before(deadline); iters++ {
+		d := &vfD{err: vfErr}
+		c := NewCollection()
+		if err := c.AddScoped(func() *vfD { return d }); err != nil {
+			t.Fatal(err)
+		}
+		p, err := c.Build()
+		if err != nil {
+			t.Fatal(err)
+		}
+		parent, _ := p.CreateScope(context.Background())
+		child, _ := parent.CreateScope(nil)
+		if _, err := child.Get(reflect.TypeOf((*vfD)(nil))); err != nil {
+			t.Fatal(err)
+		}
+		if err := parent.Close(); err == nil {
+			lost++
+		}
+		p.Close()
+	}
+	if lost > 0 {
+		t.Errorf("F1': after %d iterations parent.Close() returned nil although a disposable of its child scope failed (the child detached itself before the parent looked)", iters)
+	} else {
+		t.Logf("F1' not hit in %d iterations", iters)
+	}
 }
